@@ -398,6 +398,23 @@ def targeted(rng, kind, other):
             if rng.random() < 0.8:
                 return ("P", rng.choice(fp))
             return ("P", add(rng.choice(fp), mul(rdir(rng, 1), rng.choice((F(1, 4), F(1, 2), F(1))))))
+        if kind in ("L", "H", "S") and other[0] in ("PG", "PH") and rng.random() < 0.08:
+            # in the plane of the polygon / of a face, on the line that touches it in ONE vertex only (parallel to the chord
+            # between that vertex's neighbours): containing the vertex, ending in it, or stopping short of it
+            f = other[1] if other[0] == "PG" else rng.choice(other[2])
+            m = len(f)
+            i = rng.randrange(m)
+            v, dch = f[i], sub(f[(i + 1) % m], f[(i - 1) % m])
+            ts = sorted(rng.sample([F(x, 2) for x in range(-4, 5)], 2))
+            if kind == "L":
+                o = ("L", add(v, mul(dch, ts[0])), mul(dch, rng.choice((1, -1, F(1, 2)))))
+            elif kind == "H":
+                o = ("H", add(v, mul(dch, ts[0])), mul(dch, rng.choice((1, -1))))
+            else:
+                o = ("S", add(v, mul(dch, ts[0])), add(v, mul(dch, ts[1])))
+            if ok_coords(o):
+                return o
+            continue
         if kind in ("L", "H", "S"):
             a = rng.choice(fp)
             b = rng.choice(fp + [add(a, rdir(rng))] * 2)
